@@ -113,7 +113,40 @@ def command_argv(command, path):
     raise HarnessError(f"unknown command {command}")
 
 
+_GROUPS = {}
+
+
+def observe_group(tree, name, command, seed):
+    """`zydeco fmt [--check] f1 f2 ...` on private copies of a group of files."""
+    members = _GROUPS[name]
+    directory = os.path.join(tree, "zygroups", f"{name[1:]}-{command}-{seed & 0xffffff:x}")
+    shutil.rmtree(directory, ignore_errors=True)
+    os.makedirs(directory)
+    copies = []
+    for index, member in enumerate(members):
+        copy = os.path.join(directory, f"m{index}{os.path.splitext(member)[1]}")
+        if member == "@broken":
+            text = "let x = in\n"
+        else:
+            text = open(os.path.join(tree, member), encoding="utf8", errors="replace").read()
+            if index % 3 != 2:
+                # make the file need reformatting (spacing only; the program is unchanged)
+                text = text.replace(" = ", "  =  ").replace(" that", "   that") + "\n\n\n"
+        with open(copy, "w", encoding="utf8") as handle:
+            handle.write(text)
+        copies.append(copy)
+    argv = [ZYDECO, "fmt"] + (["--check"] if command == "fmt-check-many" else []) + [os.path.basename(c) for c in copies]
+    try:
+        status, out, err = run_under_seam(argv, seed, cwd=directory, timeout=300)
+        contents = b"\0".join(open(c, "rb").read() for c in copies)
+    finally:
+        shutil.rmtree(directory, ignore_errors=True)
+    return (status, out, err, contents)
+
+
 def observe(tree, relpath, command, seed, timeout, patient=False):
+    if relpath.startswith("@group"):
+        return observe_group(tree, relpath, command, seed)
     """One fresh process; returns (status, stdout, stderr, extra).
 
     Only `run` may legitimately not terminate, so only `run` under the reference seed gets the
@@ -246,6 +279,22 @@ def run_c16(tier, seed):
                 continue  # asks the host for entropy: legitimately seed-dependent
             jobs.append((relpath, family, command))
 
+    # `fmt` with SEVERAL files in one invocation: which files are listed / rewritten, and in
+    # which order, must not depend on the process either
+    group_rng = Rng(mix(seed, ENGINE, 4242))
+    candidates = [f for f in files if "/tests/" in f or f.startswith("docs/spell")]
+    groups = []
+    for index in range(24 if thorough else 8):
+        members = [group_rng.pick(candidates) for _ in range(group_rng.range(3, 6))]
+        members = list(dict.fromkeys(members))
+        if group_rng.chance(1, 2):
+            members.insert(group_rng.range(1, len(members)), "@broken")  # an unparsable file among the others
+        groups.append(members)
+    for index, members in enumerate(groups):
+        _GROUPS[f"@group{index}"] = members
+        jobs.append((f"@group{index}", "group", "fmt-check-many"))
+        jobs.append((f"@group{index}", "group", "fmt-many"))
+
     stats = {
         "processes": 0, "pairs": 0, "nonempty_output_pairs": 0, "excluded_run_timeouts": [],
         "status_histogram": {}, "by_command": {}, "distinct_outputs": set(),
@@ -311,12 +360,17 @@ def run_c16(tier, seed):
             continue
         if len(violations) >= 5:
             continue
-        minimal = shrink_program(tree, relpath, command, reference_seed, other, timeout) \
-            if family != "corpus" or len(violations) < 2 else open(os.path.join(tree, relpath)).read()
+        if family == "group":
+            minimal = json.dumps([[m, "" if m == "@broken" else open(os.path.join(tree, m), encoding="utf8", errors="replace").read()]
+                                  for m in _GROUPS[relpath]])
+        else:
+            minimal = shrink_program(tree, relpath, command, reference_seed, other, timeout) \
+                if family != "corpus" or len(violations) < 2 else open(os.path.join(tree, relpath)).read()
         payload = {
             "property": "C16", "engine": "hashsim", "seed": str(seed), "tree": tree_fingerprint(),
             "command": command, "file": relpath, "family": family,
-            "directory": os.path.dirname(relpath), "extension": os.path.splitext(relpath)[1],
+            "directory": os.path.dirname(relpath) if family != "group" else "lib",
+            "extension": os.path.splitext(relpath)[1] if family != "group" else ".zy",
             "program": minimal, "seed_reference": str(reference_seed), "seed_other": str(other),
             "seam_reference": list(seam_params(reference_seed)), "seam_other": list(seam_params(other)),
             "first_difference": first_difference(reference, outcome),
@@ -326,8 +380,9 @@ def run_c16(tier, seed):
         code, _ = replay_c16(path, quiet=True, tree=tree)
         if code != 1:
             # the minimised program no longer differs: fall back to the full program
-            payload["program"] = open(os.path.join(tree, relpath), encoding="utf8", errors="replace").read()
-            path = save_replay("C16", command, payload)
+            if family != "group":
+                payload["program"] = open(os.path.join(tree, relpath), encoding="utf8", errors="replace").read()
+                path = save_replay("C16", command, payload)
         violations.append((path, f"`zydeco {command}` on {relpath}: {payload['first_difference']}"))
 
     wall = time.time() - started
@@ -338,7 +393,8 @@ def run_c16(tier, seed):
         "rule": "one evaluation = one fresh `zydeco` process under (hash key, heap pad, env pad) drawn from one seed; "
                 "a case = (program, command) compared byte-for-byte against the reference seed; distinct_nontrivial "
                 "counts distinct (status, stdout, stderr, formatted file) observations among reference runs",
-        "samples": [{"program": j[0], "family": j[1], "command": " ".join(command_argv(j[2], j[0])[1:]),
+        "samples": [{"program": j[0] if j[1] != "group" else list(_GROUPS[j[0]]), "family": j[1],
+                     "command": " ".join(command_argv(j[2], j[0])[1:]) if j[1] != "group" else f"fmt{' --check' if j[2] == 'fmt-check-many' else ''} <files>",
                      "seeds": [str(reference_seed)] + [str(s) for s in other_seeds[:2]]} for j in sample_jobs],
         "program_command_pairs": stats["pairs"],
         "pairs_with_nonempty_output": stats["nonempty_output_pairs"],
@@ -370,6 +426,27 @@ def replay_c16(path, quiet=False, tree=None):
     payload = json.load(open(path))
     if tree is None:
         tree = mirror_tree(os.path.join(SCRATCH, "hashsim", "replay-tree"))
+    if payload.get("family") == "group":
+        members = []
+        os.makedirs(os.path.join(tree, "lib", "zyreplaygroup"), exist_ok=True)
+        for index, (name, text) in enumerate(json.loads(payload["program"])):
+            if name == "@broken":
+                members.append("@broken")
+                continue
+            rel = os.path.join("lib", "zyreplaygroup", f"g{index}{os.path.splitext(name)[1]}")
+            with open(os.path.join(tree, rel), "w", encoding="utf8") as handle:
+                handle.write(text)
+            members.append(rel)
+        _GROUPS["@groupreplay"] = members
+        a = observe_group(tree, "@groupreplay", payload["command"], int(payload["seed_reference"]))
+        b = observe_group(tree, "@groupreplay", payload["command"], int(payload["seed_other"]))
+        if a != b:
+            if not quiet:
+                log(f"REPRODUCED property=C16 `{payload['command']}` differs between seeds: {first_difference(a, b)}")
+            return 1, first_difference(a, b)
+        if not quiet:
+            log("NOT-REPRODUCED property=C16")
+        return 0, None
     relpath = os.path.join(payload["directory"], f"zyreplay{payload['extension']}")
     with open(os.path.join(tree, relpath), "w", encoding="utf8") as handle:
         handle.write(payload["program"])
